@@ -10,6 +10,7 @@ package mc
 import (
 	"bytes"
 	"fmt"
+	"net"
 	"strings"
 	"testing"
 	"time"
@@ -414,8 +415,14 @@ func runC09Versions(t *testing.T, rep *Report) {
 			o := b.track(nd)
 			advance(time.Microsecond)
 			// a local alive peer with version tuple lv (alive claims with pmin=0/pmax=0/pmin>pmax are refused upstream)
-			o.M.VAliveNode(&ml.VAlive{Incarnation: 1, Node: "lp", Addr: ip4(70), Port: 7946, Vsn: lv[:]}, nil, false)
+			// history: the peer was first known with the base range and re-announced itself (still alive) with lv
+			o.M.VAliveNode(&ml.VAlive{Incarnation: 1, Node: "lp", Addr: ip4(70), Port: 7946, Vsn: base[:]}, nil, false)
 			advance(time.Microsecond)
+			o.M.VAliveNode(&ml.VAlive{Incarnation: 2, Node: "lp", Addr: ip4(70), Port: 7946, Vsn: lv[:]}, nil, false)
+			advance(time.Microsecond)
+			if r := findRec(o.M.VSnapshot(), "lp"); r != nil && r.Incarnation == 2 && r.Vsn != [6]uint8(lv) {
+				rep.Violate("version-vector-not-updated", fmt.Sprintf("peer re-announced %v at a newer incarnation, record keeps %v", lv, r.Vsn), nil)
+			}
 			snap := o.M.VSnapshot()
 			var localAlive, localAll []vt
 			for _, r := range snap.Recs {
@@ -657,6 +664,7 @@ func TestC09(t *testing.T) {
 		}
 	}
 	runC09Crafted(t, rep)
+	runC09HostileHost(t, rep)
 	runC09Versions(t, rep)
 	// ---- (7) concurrent gossip, Engine T
 	tscs := c09TScenarios()
@@ -676,4 +684,95 @@ func TestC09(t *testing.T) {
 	runTSet(t, rep, tscs, tb, 13000)
 	rep.Distinct = rep.Evaluations
 	rep.Sample(map[string]any{"intact": c09Cfg{lats[4], "veto-host", true, axs[1], bxs[3]}.String(), "cut": "request cut at byte 41 then stall; reply cut at byte 7 then close"})
+}
+
+
+// runC09HostileHost: the harness answers a real initiator's Join with a crafted
+// reply. A veto of the initiator's merge delegate must hold whatever the reply
+// header claims (Join flag false/true), and a malformed / incompatible reply
+// must change nothing.
+func runC09HostileHost(t *testing.T, rep *Report) {
+	type hh struct {
+		desc     string
+		joinFlag bool
+		veto     bool
+		vsn      []uint8
+		wantOK   bool
+	}
+	cases := []hh{
+		{"reply Join=true, initiator vetoes", true, true, defaultVsn, false},
+		{"reply Join=false, initiator vetoes", false, true, defaultVsn, false},
+		{"reply Join=false, initiator accepts", false, false, defaultVsn, true},
+		{"reply lists a node with an incompatible version range", true, false, []uint8{4, 5, 4, 0, 0, 0}, false},
+	}
+	for ci, c := range cases {
+		if !mine(4000 + ci) {
+			continue
+		}
+		for _, cfg := range []rcfg{{EncVsn: 1}, {Keys: "K1", Label: "ab", EncVsn: 1}} {
+			journal("C09 hostile host %s %v", c.desc, cfg)
+			rep.Evaluations++
+			res := inBubble(t, func(b *bubble) {
+				mg := &mergeRec{Veto: c.veto}
+				an, err := newNode(twinS, ip4(1), func(cf *ml.Config) { cfg.apply(cf); cf.Merge = mg; cf.TCPTimeout = 2 * time.Second })
+				must(err)
+				a := b.track(an)
+				advance(time.Microsecond)
+				a.T.OnDial = func(ad ml.Address, d time.Duration) (net.Conn, error) {
+					c1, c2 := simPipe(a.Addr, simAddr(ad.Addr))
+					b.conns = append(b.conns, c1, c2)
+					go func() {
+						buf := make([]byte, 65536)
+						_, _ = c2.Read(buf) // swallow the request
+						nodes := []ml.VPushNodeState{
+							{Name: twinR, Addr: ip4(2), Port: 7946, Incarnation: 1, State: ml.StateAlive, Vsn: c.vsn},
+							{Name: "extra", Addr: ip4(33), Port: 7946, Incarnation: 1, State: ml.StateAlive, Vsn: c.vsn},
+						}
+						out := bytes.NewBuffer(nil)
+						hdr, _ := ml.VEncode(ml.VPushPullMsg, &ml.VPushPullHeader{Nodes: len(nodes), UserStateLen: 0, Join: c.joinFlag}, false)
+						out.Write(hdr)
+						for i := range nodes {
+							e, _ := ml.VEncode(0, &nodes[i], false)
+							out.Write(e[1:])
+						}
+						// the accepting side writes no label header but seals with the label
+						framed := wrapStream(rcfg{Keys: cfg.Keys, Label: cfg.Label, EncVsn: cfg.EncVsn}, out.Bytes())
+						if cfg.Label != "" {
+							framed = framed[2+len(cfg.Label):]
+						}
+						_, _ = c2.Write(framed)
+					}()
+					return c1, nil
+				}
+				dig := nodeDigest(a)
+				var n int
+				var jerr error
+				done := make(chan struct{})
+				go func() { n, jerr = a.M.Join([]string{"10.0.0.2:7946"}); close(done) }()
+				settle()
+				time.Sleep(5 * time.Second)
+				settle()
+				<-done
+				if c.wantOK {
+					if n != 1 || jerr != nil || !listed(a, twinR) {
+						rep.Violate("hostile-host:legit-reply-rejected", fmt.Sprintf("%s %v: n=%d err=%v", c.desc, cfg, n, jerr), nil)
+					}
+				} else {
+					if n != 0 || jerr == nil {
+						rep.Violate("hostile-host:join-counted", fmt.Sprintf("%s %v: Join reported n=%d err=%v", c.desc, cfg, n, jerr), nil)
+					}
+					if nodeDigest(a) != dig {
+						rep.Violate("hostile-host:state-changed", fmt.Sprintf("%s %v: %s -> %s", c.desc, cfg, dig, nodeDigest(a)), nil)
+					}
+					if c.veto && mg.Calls != 1 {
+						rep.Violate("hostile-host:merge-delegate-not-consulted", fmt.Sprintf("%s %v: NotifyMerge called %d times", c.desc, cfg, mg.Calls), nil)
+					}
+				}
+				rep.Outcome("hostile-host")
+			})
+			if res.Panic != nil || res.Leak {
+				rep.Violate("panic-or-leak", fmt.Sprintf("hostile host %s: %v leak=%v", c.desc, res.Panic, res.Leak), nil)
+			}
+		}
+	}
 }
